@@ -1579,6 +1579,852 @@ def run_histories(ctx, with_tr=False, objects=True):
             ctx.violation("Coq model and implementation disagree on a history (the Python oracle accepted it)", kept[i])
 
 
+# ----------------------------------------------------------------------------
+# FUNCTION HISTORIES: state carried between calls of the module-level conversions.
+# The object stream above covers derived values of Interval / Note / Tuplet / KeySignature / Tempo.  This stream
+# covers what a one-shot table cannot see in the FUNCTIONS: a memo keyed by the identity of an argument array that
+# is edited in place afterwards, a cache keyed by too little (t, mpq without ppq; a frequency without a4), a result
+# that is a view of the caller's array or of a module-level buffer, an argument converted in place, a module table
+# changed by an earlier call, a dtype inherited from the input.  A history owns a POOL of variables (numpy arrays
+# of every accepted dtype / 0-d / one-element / empty / 2-d, a symbolic-duration dict) next to a SHADOW pool of
+# private deep copies that never reach partitura.  Operations: call f(args from the pool or constants) -> new
+# variable; write into / scale in place an array of the pool (arguments AND returned arrays); edit the dict.
+# After EVERY operation: (1) a call's result is judged from the CURRENT values of its arguments by the
+# independent oracles; (2) every variable of the pool equals its shadow (a call changes nothing that exists, an
+# edit changes exactly its target: results share no data with arguments, other results or module state);
+# (3) the same call on fresh deep copies of the arguments gives the same answer; at the end every call is
+# repeated in REVERSE order on fresh copies and must give what it gave, and the module tables are unchanged.
+
+FH_TABLES = ["MIDI_BASE_CLASS", "BASE_PC", "STEPS", "DUMMY_PS_BASE_CLASS", "MAJOR_KEYS", "MINOR_KEYS", "INTERVAL_TO_SEMITONES",
+             "LABEL_DURS", "DOT_MULTIPLIERS", "ALT_TO_INT", "INT_TO_ALT", "CLEF_TO_INT", "INT_TO_CLEF", "INTERVALCLASSES", "ALTER_SIGNS"]
+FH_NP_KINDS = ("int64", "int32", "float64", "float32")
+FH_A4 = [440.0, 415.0, 442.0, 440]
+
+
+def tables_snapshot():
+    """deep copy (as a printable canonical form) of the constant tables C12 lists, read from the live modules"""
+    import partitura.utils.globals as G
+    import partitura.utils.music as M
+    out = {}
+    for mod, names in ((G, FH_TABLES), (M, FH_TABLES + ["SIGN_TO_ALTER"])):
+        for n in names:
+            v = getattr(mod, n, None)
+            if isinstance(v, dict):
+                out[mod.__name__.rsplit(".", 1)[-1] + "." + n] = sorted((repr(k), repr(x)) for k, x in v.items())
+            elif isinstance(v, (list, tuple)):
+                out[mod.__name__.rsplit(".", 1)[-1] + "." + n] = [repr(x) for x in v]
+    return out
+
+
+def tables_diff(a, b):
+    return ["%s: %s -> %s" % (k, [x for x in a.get(k, []) if x not in b.get(k, [])][:3] or len(a.get(k, [])),
+                              [x for x in b.get(k, []) if x not in a.get(k, [])][:3] or len(b.get(k, [])))
+            for k in sorted(set(a) | set(b)) if a.get(k) != b.get(k)]
+
+
+def fh_build(spec):
+    import numpy as np
+    t = spec["t"]
+    if t == "arr":
+        vals = [float.fromhex(x) if isinstance(x, str) else x for x in spec["v"]]
+        return np.array(vals, dtype=spec["dtype"]).reshape(spec["shape"])
+    if t == "num":
+        v = float.fromhex(spec["v"]) if isinstance(spec["v"], str) else spec["v"]
+        return v if spec["kind"] in ("int", "float") else getattr(np, spec["kind"])(v)
+    if t == "dict":
+        return dict(spec["v"])
+    return spec["v"]
+
+
+def fh_copy(o):
+    import numpy as np
+    import copy
+    if isinstance(o, np.ndarray):
+        return np.array(o, copy=True, order="C")
+    return copy.deepcopy(o)
+
+
+def fh_snap(o):
+    import numpy as np
+    if isinstance(o, np.ndarray):
+        return ("arr", o.dtype.str, tuple(o.shape), np.ascontiguousarray(o).tobytes())
+    if isinstance(o, dict):
+        return ("dict", tuple(sorted((str(k), repr(v)) for k, v in o.items())))
+    if isinstance(o, (list, tuple)):
+        return (type(o).__name__, tuple(fh_snap(x) for x in o))
+    return ("val", type(o).__name__, repr(o))
+
+
+def fh_show(o):
+    import numpy as np
+    if isinstance(o, np.ndarray):
+        return "array(%s, dtype=%s)" % (o.tolist(), o.dtype)
+    return repr(o)
+
+
+def fh_elems(o):
+    """-> (shape or None for a scalar, list of Python numbers, dtype string or None)"""
+    import numpy as np
+    if isinstance(o, np.ndarray):
+        return tuple(o.shape), o.ravel().tolist(), o.dtype.str.lstrip("<>=|")
+    if isinstance(o, np.generic):
+        return None, [o.item()], o.dtype.str.lstrip("<>=|")
+    return None, [o], None
+
+
+def _is_num(x):
+    return isinstance(x, (int, float)) and not isinstance(x, bool) and (isinstance(x, int) or math.isfinite(x))
+
+
+def fh_expect(fn, args):
+    """What the call must return, from the CURRENT values of its arguments only.
+    ('elems', shape|None, [('eq', int) | ('close', Fraction, rel) | ('any',)]) | ('ok', v) | ('err',) | ('ok_or_err', v) | ('any',)"""
+    if fn in ("s2t", "s2t_kw", "s2t_alias", "t2s"):
+        shape, vals, dt = fh_elems(args[0])
+        mpq, ppq = int(args[1]), int(args[2])
+        if not all(_is_num(v) for v in vals) or mpq <= 0 or ppq <= 0:
+            return ("any",)
+        out = []
+        for v in vals:
+            if fn == "t2s":
+                out.append(("close", Fraction(mpq) * Fraction(v) / (10 ** 6 * ppq), Fraction(1, 10 ** 6) if dt == "f4" else Fraction(1, 10 ** 12)))
+            else:
+                ok, exact, frac = comparable(ppq, mpq, float(v) if isinstance(v, float) else v)
+                out.append(("eq", rhe(exact)) if ok else ("any",))
+        return ("elems", shape, out)
+    if fn == "m2f":
+        shape, vals, dt = fh_elems(args[0])
+        a4 = float(args[1])
+        if not all(_is_num(v) for v in vals):
+            return ("any",)
+        return ("elems", shape, [("close", Fraction(a4 * 2.0 ** ((v - 69) / 12.0)), Fraction(1, 10 ** 5) if dt in ("f4", "f2") else Fraction(1, 10 ** 9)) for v in vals])
+    if fn == "f2m":
+        shape, vals, dt = fh_elems(args[0])
+        a4 = float(args[1])
+        if not all(_is_num(v) and v > 0 for v in vals):
+            return ("any",)
+        out = []
+        for v in vals:
+            x = 12 * math.log2(v / a4) + 69
+            out.append(("any",) if abs(x - math.floor(x) - 0.5) < (1e-3 if dt in ("f4", "f2") else 1e-6) else ("eq", int(math.floor(x + 0.5))))
+        return ("elems", shape, out)
+    if fn == "symdur":
+        sd, divs = args
+        u = sd.get("type", None)
+        if u not in LAB:
+            return ("err",)
+        k = sd.get("dots", 0)
+        if not isinstance(_py(k), int) or not 0 <= _py(k) <= 3:
+            return ("any",)
+        return ("elems", None, [("close", _py(divs) * LAB[u] * dot_mult(_py(k)) * Fraction(_py(sd.get("normal_notes")) or 1, _py(sd.get("actual_notes")) or 1), Fraction(1, 10 ** 9))])
+    if fn == "tqt":
+        unit, tempo = args
+        u = unit.strip().rstrip(".")
+        if u not in LAB or unit.count(".") > 3:
+            return ("any",)
+        return ("elems", None, [("close", Fraction(_py(tempo)) * LAB[u] * dot_mult(unit.count(".")), Fraction(1, 10 ** 9))])
+    plain = all(type(a) in (int, str, type(None)) for a in args)   # numpy kinds of scalar arguments: a value, if given, is the same
+    def wrap(j):
+        return j if plain or j[0] != "ok" else ("ok_or_err", j[1])
+    if fn == "ps2m":
+        st, al, oc = (_py(a) for a in args)
+        m = midi_of(str(st), al or 0, oc)
+        return wrap(("ok", m)) if m is not None and str(st) in BASE else ("any",)
+    if fn == "m2ps":
+        return wrap(("sounds", _py(args[0])))
+    if fn in ("nn2ps", "nn2m"):
+        try:
+            (st, al, oc), documented = parse_spec(args[0])
+        except Exception:
+            return ("any",)
+        if al is None or st not in BASE:
+            return ("any",)
+        v = (st, al, oc) if fn == "nn2ps" else midi_of(st, al, oc)
+        return ("ok", v) if documented else ("ok_or_err", v)
+    if fn == "ps2nn":
+        return ("name", tuple(_py(a) for a in args))
+    if fn == "step2pc":
+        st, al = (_py(a) for a in args)
+        return wrap(("ok", (BASE[st] + al) % 12)) if st in BASE else ("any",)
+    if fn == "f2k":
+        f, mode = (_py(a) for a in args)
+        mode = str(mode) if isinstance(mode, str) else mode
+        e = key_expect(f, mode)
+        return wrap(("ok", e)) if e is not None else ("err",)
+    if fn == "k2f":
+        for f in range(-7, 8):
+            for mode in ("major", "minor"):
+                if key_expect(f, mode) == args[0]:
+                    return ("ok", (f, mode))
+        return ("any",)
+    if fn in ("mode2int", "int2mode"):
+        mc = mode_class(_py(args[0]) if not isinstance(args[0], str) else str(args[0]))
+        if mc is None:
+            return ("err",)
+        return wrap(("ok", mc if fn == "int2mode" else {"major": 1, "minor": -1}[mc]))
+    if fn == "clef":
+        return ("clef", args[0])
+    raise ValueError(fn)
+
+
+def fh_functions():
+    import warnings
+    import partitura.utils.music as M
+
+    def alias(t, mpq, ppq):   # the deprecated keyword, as old callers still write it
+        with warnings.catch_warnings():
+            warnings.simplefilter("ignore")
+            return M.seconds_to_midi_ticks(t=t, mpq=mpq, ppq=ppq)
+    return {"s2t": M.seconds_to_midi_ticks, "s2t_kw": lambda t, mpq, ppq: M.seconds_to_midi_ticks(time_in_seconds=t, ppq=ppq, mpq=mpq),
+            "s2t_alias": alias, "t2s": M.midi_ticks_to_seconds,
+            "m2f": M.midi_pitch_to_frequency, "f2m": M.frequency_to_midi_pitch, "symdur": M.symbolic_to_numeric_duration,
+            "tqt": M.to_quarter_tempo, "ps2m": M.pitch_spelling_to_midi_pitch, "m2ps": M.midi_pitch_to_pitch_spelling,
+            "nn2ps": M.note_name_to_pitch_spelling, "nn2m": M.note_name_to_midi_pitch, "ps2nn": M.pitch_spelling_to_note_name,
+            "step2pc": M.step2pc, "f2k": M.fifths_mode_to_key_name, "k2f": M.key_name_to_fifths_mode, "mode2int": M.key_mode_to_int,
+            "int2mode": M.key_int_to_mode, "clef": lambda s: M.clef_int_to_sign(M.clef_sign_to_int(s))}
+
+
+FH_NAMES = {"s2t": "seconds_to_midi_ticks", "s2t_kw": "seconds_to_midi_ticks[time_in_seconds=]", "s2t_alias": "seconds_to_midi_ticks[t=]",
+            "t2s": "midi_ticks_to_seconds", "m2f": "midi_pitch_to_frequency", "f2m": "frequency_to_midi_pitch",
+            "symdur": "symbolic_to_numeric_duration", "tqt": "to_quarter_tempo", "ps2m": "pitch_spelling_to_midi_pitch",
+            "m2ps": "midi_pitch_to_pitch_spelling", "nn2ps": "note_name_to_pitch_spelling", "nn2m": "note_name_to_midi_pitch",
+            "ps2nn": "pitch_spelling_to_note_name", "step2pc": "step2pc", "f2k": "fifths_mode_to_key_name", "k2f": "key_name_to_fifths_mode",
+            "mode2int": "key_mode_to_int", "int2mode": "key_int_to_mode", "clef": "clef_int_to_sign(clef_sign_to_int)"}
+
+
+def fh_judge(exp, got, M=None):
+    """-> None when the observation is what the current arguments define, else a short reason"""
+    import numpy as np
+    k = exp[0]
+    if k == "any":
+        return None
+    if k == "err":
+        return None if got[0] != "ok" else "expected a rejection"
+    if got[0] != "ok":
+        return None if k == "ok_or_err" else "raised %s" % (got[1],)
+    v = got[1]
+    if k in ("ok", "ok_or_err"):
+        w = tuple(_py(x) for x in v) if isinstance(v, (tuple, list)) else _py(v)
+        if isinstance(exp[1], tuple) and isinstance(w, tuple) and len(w) == 3 and w[1] is None:
+            w = (w[0], 0, w[2])
+        return None if w == exp[1] and not isinstance(w, bool) else "expected %r" % (exp[1],)
+    if k == "sounds":
+        r = _ps_norm(got)
+        return None if r[0] == "ok" and r[1][0] in BASE and midi_of(*r[1]) == exp[1] else "expected a spelling sounding %r" % (exp[1],)
+    if k == "name":
+        st, al, oc = exp[1]
+        try:
+            (pst, pal, poc), _ = parse_spec(v)
+        except Exception:
+            return "not a string of the grammar [A-G][xb#]*digits"
+        return None if (pst, pal, poc) == (str(st).upper(), al, oc) else "reads back as %r" % ((pst, pal, poc),)
+    if k == "clef":
+        return None if v == exp[1] else "decodes to %r" % (v,)
+    shape, items = exp[1], exp[2]
+    if shape is None or shape == ():
+        if isinstance(v, np.ndarray) and v.ndim > 0:
+            return "an array of shape %r for a scalar argument" % (v.shape,)
+        vals = [_py(v) if not isinstance(v, np.ndarray) else v.item()]
+    else:
+        if not isinstance(v, np.ndarray) or tuple(v.shape) != shape:
+            return "expected an array of shape %r" % (shape,)
+        vals = v.ravel().tolist()
+    for j, (x, it) in enumerate(zip(vals, items)):
+        if it[0] == "any":
+            continue
+        if not _is_num(x):
+            return "element %d is %r" % (j, x)
+        if it[0] == "eq" and not (x == it[1] and float(x) == int(x)):
+            return "element %d is %r, from the current argument it is %d" % (j, x, it[1])
+        if it[0] == "close" and abs(Fraction(x) - it[1]) > it[2] * abs(it[1]):
+            return "element %d is %r, from the current argument it is %s" % (j, x, float(it[1]))
+    return None
+
+
+def fh_same(a, b):
+    """the same call on fresh copies of the same arguments: same outcome, same values"""
+    import numpy as np
+    if a[0] != "ok" or b[0] != "ok":
+        return a[0] != "ok" and b[0] != "ok"
+    x, y = a[1], b[1]
+    if isinstance(x, np.ndarray) or isinstance(y, np.ndarray):
+        return isinstance(x, np.ndarray) and isinstance(y, np.ndarray) and x.shape == y.shape and x.tolist() == y.tolist()
+    try:
+        return bool(x == y)
+    except Exception:
+        return False
+
+
+def fh_arg_text(a):
+    return a[1] if a[0] == "v" else fh_show(fh_build(a[1]))
+
+
+def fh_op_text(op):
+    k = op[0]
+    if k == "call":
+        return "%s = %s(%s)" % (op[3], FH_NAMES[op[1]], ", ".join(fh_arg_text(a) for a in op[2]))
+    if k == "write":
+        return "%s.flat[%d] = %s" % (op[1], op[2], fh_show(fh_build(op[3])))
+    if k == "iscale":
+        return "%s *= %r" % (op[1], op[2])
+    if k == "dset":
+        return "%s[%r] = %r" % (op[1], op[2], op[3])
+    return "del %s[%r]" % (op[1], op[2])
+
+
+def run_fn_history(hist, funcs=None, verbose=None):
+    """-> (failures [(tag, text)], trace [(op, observation, argument values at the call | None)]).  Stops at the first failing operation."""
+    import numpy as np
+    funcs = funcs or fh_functions()
+    pool = {n: fh_build(s) for n, s in sorted(hist["vars"].items())}
+    shadow = {n: fh_copy(o) for n, o in pool.items()}
+    tabs = tables_snapshot()
+    fails, trace, calls = [], [], []
+    done = []
+
+    def where(idx=None):
+        return "%s; then %s" % ("; ".join("%s = %s" % (n, fh_show(fh_build(s))) for n, s in sorted(hist["vars"].items())) or "no variables",
+                                "; ".join(fh_op_text(o) for o in done))
+
+    def drift(skip=()):
+        return [n for n in sorted(pool) if n not in skip and fh_snap(pool[n]) != fh_snap(shadow[n])]
+
+    for idx, op in enumerate(hist["ops"]):
+        k = op[0]
+        if k == "call":
+            fn, argrefs, out = op[1], op[2], op[3]
+            if any(a[0] == "v" and a[1] not in pool for a in argrefs):
+                continue
+            args = [pool[a[1]] if a[0] == "v" else fh_build(a[1]) for a in argrefs]
+            sargs = [shadow[a[1]] if a[0] == "v" else fh_build(a[1]) for a in argrefs]
+            before = [fh_snap(a) for a in args]
+            exp = fh_expect(fn, sargs)
+            got = _try(funcs[fn], *args)
+            done.append(op)
+            why = fh_judge(exp, got)
+            if verbose is not None:
+                verbose("  %-60s -> %s%s" % (fh_op_text(op), fh_show(got[1]) if got[0] == "ok" else got, "" if why is None else "   <-- " + why))
+            if why is not None:
+                fails.append(("value:" + fn, "%s -> %s: %s (arguments now: %s)" % (where(idx), fh_show(got[1]) if got[0] == "ok" else got, why,
+                                                                                     ", ".join(fh_show(a) for a in sargs))))
+            elif [fh_snap(a) for a in args] != before:
+                j = next(j for j, a in enumerate(args) if fh_snap(a) != before[j])
+                fails.append(("argument-modified:" + fn, "%s changed its argument %d from %s to %s" % (where(idx), j, fh_show(sargs[j]), fh_show(args[j]))))
+            elif drift():
+                n = drift()[0]
+                fails.append(("other-variable-changed:" + fn, "%s changed the variable %s (not an argument of this call) from %s to %s"
+                              % (where(idx), n, fh_show(shadow[n]), fh_show(pool[n]))))
+            else:
+                again = _try(funcs[fn], *[fh_copy(a) for a in sargs])
+                if not fh_same(got, again):
+                    fails.append(("fresh-copy:" + fn, "%s -> %s, but the same call on fresh copies of the same arguments -> %s"
+                                  % (where(idx), fh_show(got[1]) if got[0] == "ok" else got, fh_show(again[1]) if again[0] == "ok" else again)))
+            trace.append((op, got if got[0] != "ok" else ("ok", fh_copy(got[1])), [fh_copy(a) for a in sargs]))   # copies: the live result may be edited later
+            if fails:
+                break
+            calls.append((idx, fn, [fh_copy(a) for a in sargs], got if got[0] != "ok" else ("ok", fh_copy(got[1]))))
+            if got[0] == "ok":
+                pool[out] = got[1]
+                shadow[out] = fh_copy(got[1])
+            else:
+                pool.pop(out, None)
+                shadow.pop(out, None)
+            continue
+        name = op[1]
+        if name not in pool:
+            continue
+        tgt, sh = pool[name], shadow[name]
+        if k in ("write", "iscale"):
+            if not isinstance(tgt, np.ndarray) or tgt.size == 0 or not tgt.flags.writeable:
+                continue
+            try:
+                if k == "write":
+                    val = fh_build(op[3])
+                    tgt.flat[op[2] % tgt.size] = val
+                    sh.flat[op[2] % sh.size] = val
+                else:
+                    np.multiply(tgt, op[2], out=tgt, casting="unsafe")
+                    np.multiply(sh, op[2], out=sh, casting="unsafe")
+            except Exception:
+                continue
+        elif k in ("dset", "ddel"):
+            if not isinstance(tgt, dict):
+                continue
+            for d in (tgt, sh):
+                if k == "dset":
+                    d[op[2]] = op[3]
+                else:
+                    d.pop(op[2], None)
+        done.append(op)
+        if verbose is not None:
+            verbose("  %s" % fh_op_text(op))
+        trace.append((op, None, None))
+        if drift():
+            n = drift()[0]
+            fails.append(("shared-data:" + k, "%s also changed the variable %s from %s to %s: they share data"
+                          % (where(idx), n, fh_show(shadow[n]), fh_show(pool[n]))))
+            break
+    if not fails:
+        for idx, fn, sargs, got in reversed(calls):   # every call again, in reverse order, on fresh copies of what it was given
+            again = _try(funcs[fn], *[fh_copy(a) for a in sargs])
+            if not fh_same(got, again):
+                fails.append(("reverse-order:" + fn, "%s: %s(%s) gave %s; repeated after the later operations, on fresh copies, it gives %s"
+                              % (where(len(hist["ops"]) - 1), FH_NAMES[fn], ", ".join(fh_show(a) for a in sargs),
+                                 fh_show(got[1]) if got[0] == "ok" else got, fh_show(again[1]) if again[0] == "ok" else again)))
+                break
+    if not fails:
+        d = tables_diff(tabs, tables_snapshot())
+        if d:
+            fails.append(("table", "%s changed a constant table: %s" % (where(len(hist["ops"]) - 1), "; ".join(d)[:400])))
+    return fails, trace
+
+
+def _fh_num(rng, v):
+    """a time / tick / pitch as one of the accepted scalar kinds"""
+    if isinstance(v, int):
+        kind = rng.choice(["int", "int", "int64", "int32", "float", "float64"])
+    else:
+        kind = rng.choice(["float", "float", "float64", "float32"])
+    if kind.startswith("float") and isinstance(v, int):
+        v = float(v)
+    return {"t": "num", "kind": kind, "v": v.hex() if isinstance(v, float) else v}
+
+
+def _fh_time(rng, ppq, mpq, s):
+    """a time in seconds for the pair: exact half ticks where the pair allows them, quarter ticks, dyadic, negative"""
+    r = rng.random()
+    if s is not None and r < 0.35:
+        t = (2 * rng.randint(0, 1 << rng.choice([3, 8])) + 1) / float(1 << s)
+        return -t if rng.random() < 0.2 else t
+    if r < 0.55:
+        return (rng.randint(0, 5000) + rng.choice([0, 0.25, 0.5, 0.75])) * mpq / (1e6 * ppq)
+    if r < 0.85:
+        return rng.randint(0, 1 << 14) / 64.0
+    return -rng.randint(0, 1 << 10) / 64.0
+
+
+def _fh_shape(rng):
+    r = rng.random()
+    if r < 0.10:
+        return []
+    if r < 0.18:
+        return [0]
+    if r < 0.30:
+        return [1]
+    if r < 0.38:
+        return [2, rng.randint(1, 3)]
+    return [rng.randint(2, 5)]
+
+
+def _fh_arr(rng, shape, dtype, gen):
+    n = 1
+    for d in shape:
+        n *= d
+    vals = []
+    for _ in range(n):
+        v = gen()
+        if dtype.startswith("i"):
+            v = int(round(v))
+        vals.append(v.hex() if isinstance(v, float) else v)
+    return {"t": "arr", "dtype": dtype, "shape": shape, "v": vals}
+
+
+def gen_fn_history_arrays(rng, length):
+    """arrays and the duration dict.  Two (ppq, mpq) pairs, the second sharing one component with the first in 60% (a cache
+    keyed by part of the arguments answers for the wrong pair); both pairs are applied to the SAME arrays and scalars."""
+    ppq, mpq, s = rng.choice(TIE_PAIRS) if rng.random() < 0.6 else rng.choice(PAIRS) + (None,)
+    r = rng.random()
+    pair2 = (ppq * 2, mpq) if r < 0.3 else (ppq, mpq // 2) if r < 0.6 else rng.choice(PAIRS)
+    pairs = [(ppq, mpq), pair2]
+
+    def num(v):   # ppq / mpq as Python ints or numpy ints
+        return {"t": "num", "kind": rng.choice(["int", "int", "int", "int64", "int32"]), "v": v}
+
+    def tgen():
+        return _fh_time(rng, ppq, mpq, s)
+    V = {}
+    for n in ("a", "b"):
+        V[n] = _fh_arr(rng, _fh_shape(rng), rng.choice(["f8", "f8", "f8", "f4", "i8", "i4"]), tgen)
+    V["k"] = _fh_arr(rng, _fh_shape(rng), rng.choice(["i8", "i4", "i4", "f8"]), lambda: rng.choice([rng.randint(0, 2000), rng.randint(4000, 200000)]))
+    V["m"] = _fh_arr(rng, _fh_shape(rng), rng.choice(["i8", "i4", "f8", "f4"]), lambda: rng.randint(0, 127))
+    V["sd"] = {"t": "dict", "v": {"type": rng.choice(sorted(LAB)), "dots": rng.randint(0, 3)}}
+    if rng.random() < 0.5:
+        V["sd"]["v"].update(actual_notes=rng.choice([3, 5, 6, 7]), normal_notes=rng.choice([2, 4, 8]))
+    ops, res = [], []
+    names = {"time": ["a", "b"], "tick": ["k"], "pitch": ["m"], "freq": []}
+    cnt = [0]
+
+    def call(fn, args, role):
+        cnt[0] += 1
+        out = "r%d" % cnt[0]
+        ops.append(["call", fn, args, out])
+        if role:
+            names[role].append(out)
+        res.append(out)
+        return out
+
+    def edit(name, role):
+        """edit a variable in place: an element, a scaling (unit change), all through numpy's own in-place operations"""
+        if rng.random() < 0.75:
+            v = {"time": tgen, "tick": lambda: rng.randint(0, 200000), "pitch": lambda: rng.randint(0, 127),
+                 "freq": lambda: 440.0 * 2.0 ** (rng.randint(-40, 40) / 12.0)}[role]()
+            if role in ("tick", "pitch") and rng.random() < 0.7:
+                v = int(v)
+            ops.append(["write", name, rng.randint(0, 5), {"t": "num", "kind": "float" if isinstance(v, float) else "int", "v": v.hex() if isinstance(v, float) else v}])
+        else:
+            ops.append(["iscale", name, rng.choice([2, 2, 0.5, 3])])
+
+    def s2t(src, p):
+        fn = rng.choice(["s2t", "s2t", "s2t", "s2t_kw", "s2t_alias"])
+        return call(fn, [["v", src], ["c", num(pairs[p][1])], ["c", num(pairs[p][0])]], "tick")
+
+    def t2s(src, p):
+        return call("t2s", [["v", src], ["c", num(pairs[p][1])], ["c", num(pairs[p][0])]], "time")
+
+    while len(ops) < length:
+        r = rng.random()
+        if r < 0.40:      # seconds -> ticks, edit (the argument or the result), again -- same pair or the sibling pair
+            src, p = rng.choice(names["time"]), rng.randrange(2)
+            out = s2t(src, p)
+            r2 = rng.random()
+            if r2 < 0.45:
+                edit(src, "time")
+            elif r2 < 0.75:
+                edit(out, "tick")
+            s2t(src, p if rng.random() < 0.6 else 1 - p)
+            if rng.random() < 0.4:
+                t2s(out, p)
+        elif r < 0.60:    # ticks -> seconds, edit, again; and back
+            src, p = rng.choice(names["tick"]), rng.randrange(2)
+            out = t2s(src, p)
+            r2 = rng.random()
+            if r2 < 0.4:
+                edit(src, "tick")
+            elif r2 < 0.75:
+                edit(out, "time")
+            t2s(src, p if rng.random() < 0.6 else 1 - p)
+            if rng.random() < 0.4:
+                s2t(out, p)
+        elif r < 0.70:    # a scalar of every kind, both pairs in both orders
+            v = tgen()
+            if rng.random() < 0.3:
+                v = int(abs(v))
+            c = ["c", _fh_num(rng, v)]
+            order = [0, 1, 0] if rng.random() < 0.5 else [1, 0, 1]
+            for p in order:
+                call("s2t", [c, ["c", num(pairs[p][1])], ["c", num(pairs[p][0])]], None)
+        elif r < 0.85:    # pitch <-> frequency with two tunings
+            a4 = rng.sample(FH_A4, 2)
+            src = rng.choice(names["pitch"])
+            f = call("m2f", [["v", src], ["c", {"t": "lit", "v": a4[0]}]], "freq")
+            r2 = rng.random()
+            if r2 < 0.35:
+                edit(src, "pitch")
+            elif r2 < 0.6:
+                edit(f, "freq")
+            call("f2m", [["v", f], ["c", {"t": "lit", "v": a4[0]}]], "pitch")
+            call("m2f", [["v", src], ["c", {"t": "lit", "v": a4[rng.randrange(2)]}]], "freq")
+            call("f2m", [["v", f], ["c", {"t": "lit", "v": a4[1]}]], None)
+            if rng.random() < 0.5:
+                c = ["c", _fh_num(rng, rng.choice([rng.randint(0, 127), 440.0, 261.6255653005986, 27.5]))]
+                for a in (a4[0], a4[1], a4[0]):
+                    call("m2f" if c[1]["v"] in range(128) else "f2m", [c, ["c", {"t": "lit", "v": a}]], None)
+        else:             # the duration dict: convert, edit an entry, convert again; the same unit with other dots / tempo
+            divs = ["c", num(rng.choice([1, 4, 12, 480]))]
+            call("symdur", [["v", "sd"], divs], None)
+            r2 = rng.random()
+            if r2 < 0.3:
+                ops.append(["dset", "sd", "dots", rng.randint(0, 3)])
+            elif r2 < 0.55:
+                ops.append(["dset", "sd", "type", rng.choice(sorted(LAB))])
+            elif r2 < 0.75:
+                ops.append(["dset", "sd", rng.choice(["actual_notes", "normal_notes"]), rng.choice([2, 3, 4, 5])])
+            elif r2 < 0.85:
+                ops.append(["ddel", "sd", rng.choice(["actual_notes", "normal_notes", "dots"])])
+            call("symdur", [["v", "sd"], divs if rng.random() < 0.6 else ["c", num(rng.choice([1, 4, 12, 480]))]], None)
+            u = rng.choice(sorted(LAB))
+            for k in rng.sample(range(4), 2):
+                call("tqt", [["c", {"t": "lit", "v": u + "." * k}], ["c", _fh_num(rng, rng.choice([60, 100, 72.5, 1]))]], None)
+    return {"kind": "history", "object": "functions", "vars": V, "ops": ops}
+
+
+def gen_fn_history_scalars(rng, length):
+    """the pure scalar conversions: a small pool of arguments that collide under every partial key (same step and octave,
+    another alteration; same name, another octave; same fifths, another mode), each pair in both orders"""
+    ops = []
+    cnt = [0]
+
+    def lit(v):
+        return ["c", {"t": "lit", "v": v}]
+
+    def npint(v):
+        return ["c", {"t": "num", "kind": rng.choice(["int64", "int32"]), "v": v}] if rng.random() < 0.15 else lit(v)
+
+    def call(fn, args):
+        cnt[0] += 1
+        ops.append(["call", fn, args, "r%d" % cnt[0]])
+
+    st = rng.sample(STEPS7, 2)
+    alts = rng.sample([-2, -1, 0, 1, 2, 3, -3], 2)
+    octs = rng.sample(range(-1, 10), 2)
+    while len(ops) < length:
+        r = rng.random()
+        if r < 0.3:
+            x = [(rng.choice(st), rng.choice(alts), rng.choice(octs)) for _ in range(2)]
+            fn = rng.choice(["ps2m", "ps2nn", "step2pc"])
+            for s_, a_, o_ in (x[0], x[1], x[0], x[1], x[0]) if rng.random() < 0.5 else (x[1], x[0], x[1]):
+                call(fn, [lit(s_), npint(a_)] + ([npint(o_)] if fn != "step2pc" else []))
+        elif r < 0.5:
+            ms = [rng.randint(0, 127), rng.randint(0, 127)]
+            ms.append(ms[0] % 12 + 12 * rng.randint(0, 9))   # the same pitch class in another octave
+            for m in (ms[0], ms[2], ms[1], ms[0]):
+                call("m2ps", [npint(m)])
+        elif r < 0.7:
+            nm = [rng.choice(st) + rng.choice(DOC_ACC) + str(rng.choice([0, 4, 9, 10, 12])) for _ in range(2)]
+            nm.append(nm[0][:-1] + "3")
+            fn = rng.choice(["nn2ps", "nn2m"])
+            for n in (nm[0], nm[2], nm[1], nm[0], nm[2]):
+                call(fn, [lit(n)])
+        elif r < 0.9:
+            fs = rng.sample(range(-8, 9), 2)
+            md = rng.sample([m for m, _ in MODES], 2)
+            for f, m in ((fs[0], md[0]), (fs[0], md[1]), (fs[1], md[0]), (fs[0], md[0])):
+                call("f2k", [npint(f), lit(m)])
+                e = key_expect(f, m)
+                if e is not None and rng.random() < 0.5:
+                    call("k2f", [lit(e)])
+            for m in md + md[:1]:
+                call(rng.choice(["mode2int", "int2mode"]), [lit(m)])
+        else:
+            for sg in rng.sample(["G", "F", "C", "percussion", "TAB", "none"], 3):
+                call("clef", [lit(sg)])
+    return {"kind": "history", "object": "functions", "vars": {}, "ops": ops}
+
+
+def _fh_server():
+    """Child side of FreshFn: imports the library, then answers every request {"hist": ...} from a forked child, so each
+    history starts from the module state right after import (the server itself never calls the library)."""
+    import json, sys, resource
+    core.setup_import_path()
+    import partitura.score  # noqa
+    import partitura.utils.music  # noqa
+    sys.stdout.write("ready\n")
+    sys.stdout.flush()
+    for line in sys.stdin:
+        line = line.strip()
+        if not line:
+            continue
+        rfd, wfd = os.pipe()
+        pid = os.fork()
+        if pid == 0:
+            os.close(rfd)
+            try:
+                resource.setrlimit(resource.RLIMIT_CPU, (60, 60))   # CPU-time guard
+                out = json.dumps([list(f) for f in run_fn_history(json.loads(line)["hist"])[0]])
+            except BaseException as e:   # noqa
+                out = json.dumps({"server_error": "%s: %s" % (type(e).__name__, e)})
+            with os.fdopen(wfd, "w") as w:
+                w.write(out)
+            os._exit(0)
+        os.close(wfd)
+        with os.fdopen(rfd) as r:
+            data = r.read()
+        os.waitpid(pid, 0)
+        sys.stdout.write((data or json.dumps({"server_error": "child died"})) + "\n")
+        sys.stdout.flush()
+
+
+class FreshFn:
+    """run_fn_history in the state right after import (used to shrink: in the checking process the caches are warm)"""
+
+    def __init__(self):
+        import subprocess, sys
+        hdir = os.path.dirname(os.path.dirname(os.path.abspath(__file__)))
+        code = "import sys; sys.path.insert(0, %r); import core; from props import c12; c12._fh_server()" % hdir
+        self.p = subprocess.Popen([sys.executable, "-c", code], stdin=subprocess.PIPE, stdout=subprocess.PIPE,
+                                  stderr=subprocess.DEVNULL, text=True)
+        first = self.p.stdout.readline().strip()
+        if first != "ready":
+            raise RuntimeError("fresh interpreter did not start: %r" % first)
+
+    def fails(self, hist):
+        import json
+        self.p.stdin.write(json.dumps({"hist": hist}) + "\n")
+        self.p.stdin.flush()
+        out = json.loads(self.p.stdout.readline())
+        if isinstance(out, dict):
+            raise RuntimeError(out["server_error"])
+        return [tuple(f) for f in out]
+
+    def close(self):
+        try:
+            self.p.stdin.close()
+            self.p.wait(timeout=10)
+        except Exception:
+            self.p.kill()
+
+
+def fh_merge(hists):
+    """several histories as one (variables renamed apart): the earlier ones are the 'same process, other inputs first' part"""
+    V, ops = {}, []
+    for j, h in enumerate(hists):
+        pre = "h%d_" % j
+        V.update({pre + n: sp for n, sp in h["vars"].items()})
+        for o in h["ops"]:
+            if o[0] == "call":
+                ops.append(["call", o[1], [["v", pre + a[1]] if a[0] == "v" else a for a in o[2]], pre + o[3]])
+            else:
+                ops.append([o[0], pre + o[1]] + list(o[2:]))
+    return {"kind": "history", "object": "functions", "vars": V, "ops": ops}
+
+
+def shrink_fn_history(hist, earlier=(), fresh=None):
+    """ddmin over the operations IN A FRESH INTERPRETER STATE per candidate (operations whose variables are not bound are
+    skipped by the runner, so every subsequence runs); a sub-history counts when it fails with the same kind of failure.
+    When the history alone does not fail from a fresh state, the histories that ran before it in this process are
+    put in front (module-level state filled by other inputs).  -> (history, failures, note)"""
+    own = fresh is None
+    try:
+        fresh = fresh or FreshFn()
+        cands = [hist] + ([fh_merge(list(earlier) + [hist])] if earlier else [])
+        for h in cands:
+            f0 = fresh.fails(h)
+            if not f0:
+                continue
+            tag = f0[0][0].split(":")[0]
+
+            def still(sub):
+                try:
+                    f = fresh.fails(dict(h, ops=[list(o) for o in sub]))
+                    return bool(f) and f[0][0].split(":")[0] == tag
+                except Exception:
+                    return False
+            small = dict(h, ops=[list(o) for o in core.ddmin(h["ops"], still)]) if len(h["ops"]) > 1 else h
+            used = {a[1] for o in small["ops"] if o[0] == "call" for a in o[2] if a[0] == "v"} | {o[1] for o in small["ops"] if o[0] != "call"}
+            small = dict(small, vars={n: sp for n, sp in small["vars"].items() if n in used})
+            return small, fresh.fails(small) or f0, "shrunk in a fresh interpreter state"
+        return hist, None, "NOT reproduced from a fresh interpreter state, alone or after the %d histories before it: it depends on what ran earlier in the checking process" % len(earlier)
+    except Exception as e:
+        return hist, None, "not shrunk: %r" % (e,)
+    finally:
+        if own and fresh is not None:
+            fresh.close()
+
+
+def run_fn_histories(ctx):
+    import json
+    rng = ctx.rng
+    quick = ctx.tier == "quick"
+    funcs = fh_functions()
+    hists = []
+    try:
+        with open(os.path.join(core.VERIF, "corpus", "C12", "fn_histories.json")) as fh:
+            for h in json.load(fh):
+                hists.append({"kind": "history", "object": "functions", "vars": h["vars"], "ops": h["ops"]})
+        ctx.count("fnhistory:corpus_histories", len(hists))
+    except (OSError, ValueError, KeyError) as e:
+        ctx.extra["fn_history_corpus"] = "not read: %r" % (e,)
+    for _ in range(260 if quick else 2600):
+        hists.append(gen_fn_history_arrays(rng, rng.randint(6, 12)))
+    for _ in range(120 if quick else 1200):
+        hists.append(gen_fn_history_scalars(rng, rng.randint(8, 16)))
+    failed, good = [], []
+    for hi, hist in enumerate(hists):
+        try:
+            fails, trace = run_fn_history(hist, funcs)
+        except Exception as e:   # a harness error must not hide behind a pass
+            fails, trace = [("harness", "the history runner raised %r" % (e,))], []
+        ctx.evaluations += len(trace)
+        ctx.count("fnhistory:histories")
+        for op, got, _ in trace:
+            ctx.count("fnhistory:op_" + (op[0] if op[0] != "call" else "call_" + op[1]))
+            if op[0] == "call" and got is not None and got[0] == "ok":
+                for a in op[2]:
+                    if a[0] == "v" and a[1] in hist["vars"] and hist["vars"][a[1]]["t"] == "arr":
+                        sp = hist["vars"][a[1]]
+                        ctx.count("fnhistory:arg_%s_%s" % (sp["dtype"], "0d" if sp["shape"] == [] else "empty" if 0 in sp["shape"] else
+                                                           "one" if sp["shape"] == [1] else "2d" if len(sp["shape"]) == 2 else "1d"))
+                    elif a[0] == "c" and a[1]["t"] == "num":
+                        ctx.count("fnhistory:scalar_kind_" + a[1]["kind"])
+        if fails:
+            failed.append((hist, fails, hists[max(0, hi - 4):hi]))
+            continue
+        ctx.nontrivial(("fnh", json.dumps(hist["ops"], sort_keys=True, default=str)[:4000], json.dumps(hist["vars"], sort_keys=True)[:2000]))
+        good.append((hist, trace))
+        if len(good) == 2:
+            ctx.sample({"function_history": {"vars": hist["vars"], "steps": [fh_op_text(o) + ("" if g is None else " -> " + (fh_show(g[1]) if g[0] == "ok" else repr(g))) for o, g, _ in trace]}})
+    ctx.count("fnhistory:histories_failing", len(failed))
+    seen, fresh = set(), None
+    try:
+        for hist, fails, earlier in failed:
+            tag = fails[0][0].split(":")[0] if fails[0][0].startswith(("argument", "other", "shared", "table")) else fails[0][0]
+            if tag in seen or len(seen) >= 3:
+                continue
+            seen.add(tag)
+            fresh = fresh or FreshFn()
+            small, f2, note = shrink_fn_history(hist, earlier, fresh)
+            f2 = f2 or fails
+            ctx.violation("state carried between calls of the conversion functions [%s; %s]: %s" % (f2[0][0], note, f2[0][1][:900]),
+                          dict(small, failures=[list(x) for x in f2], note=note))
+    finally:
+        if fresh is not None:
+            fresh.close()
+    # correspondence: every seconds<->ticks call of the accepted histories, element by element, through the model
+    terms, kept = [], []
+    for hist, trace in good:
+        for op, got, args in trace:
+            if op[0] != "call" or got[0] != "ok" or op[1] not in ("s2t", "s2t_kw", "s2t_alias", "t2s"):
+                continue
+            exp = fh_expect(op[1], args)
+            if exp[0] != "elems":
+                continue
+            _, ins, _ = fh_elems(args[0])
+            _, outs, _ = fh_elems(got[1])
+            mpq, ppq = int(args[1]), int(args[2])
+            for x, y, it in zip(ins, outs, exp[2]):
+                if it[0] == "any" or len(terms) >= (6000 if quick else 60000):
+                    continue
+                if op[1] == "t2s":
+                    if float(x) != int(x):
+                        continue
+                    terms.append("(%s, %s, %s, %s, %s)" % (cz(ppq), cz(mpq), cq(Fraction(mpq) * int(x) / (10 ** 6 * ppq)), cz(int(x)), cq(Fraction(y))))
+                else:
+                    terms.append("(%s, %s, %s, %s, %s)" % (cz(ppq), cz(mpq), cq(Fraction(x)), cz(int(y)), cq(Fraction(0))))
+                kept.append({"kind": "history-element", "call": fh_op_text(op), "ppq": ppq, "mpq": mpq, "in": x, "out": y})
+    failing = ctx.coq_failing("fnhistory", "From PV Require Import Model.C12.", "", terms,
+                              "fun c => match c with (ppq, mpq, t, k, b) => Z.eqb (sec_to_tick ppq mpq t) k && "
+                              "(Qeq_bool b 0 || q_close b (tick_to_sec ppq mpq k)) end")
+    ctx.obligation("correspondence: model sec_to_tick / tick_to_sec = every element returned by seconds_to_midi_ticks / midi_ticks_to_seconds inside the "
+                   "function histories (%d elements; arrays of every dtype and shape after in-place edits, results fed back)" % len(terms),
+                   not failing, failing[:5])
+    for i in failing[:3]:
+        ctx.violation("model/implementation disagree on an element of a function history", kept[i])
+    return good
+
+
+def run_again(ctx, T, tabs0):
+    """Same process, after every stream of this run has gone through the library: the constant tables are what they were
+    before the first call, and the complete tabulation gives the same graph again (a table entry changed, a cache
+    filled by the first pass or by the histories would show here)."""
+    d = tables_diff(tabs0, tables_snapshot())
+    ctx.obligation("state: the constant tables C12 lists are unchanged after all calls of this run", not d, d[:5])
+    if d:
+        ctx.violation("a constant table was changed by calls into the library during this run: " + "; ".join(d)[:600],
+                      {"kind": "tables", "changed": d[:10]})
+    T2 = tabulate()
+    diff = []
+    for k in sorted(T):
+        if isinstance(T[k], list) and T[k] != T2.get(k):
+            rows = [(a, b) for a, b in zip(T[k], T2.get(k) or []) if a != b]
+            diff.append((k, rows[0] if rows else ("length", len(T[k]), len(T2.get(k) or []))))
+    ctx.evaluations += sum(len(v) for v in T2.values() if isinstance(v, list))
+    ctx.obligation("state: tabulating every finite domain a second time in the same process (after the sampled streams and the histories) "
+                   "gives the same %d tables" % len(T), not diff, [str(x)[:300] for x in diff[:5]])
+    for k, row in diff[:3]:
+        ctx.violation("second tabulation in the same process differs in table %s: first pass / second pass %s" % (k, str(row)[:500]),
+                      {"kind": "retabulate", "table": k, "row": str(row)[:800]})
+
+
 def run(ctx):
     ctx.rule = ("T2: every function and constant table named by C12 is executed / read on its whole finite domain (539 spellings "
                 "for the function, Note.midi_pitch and the printed names, 128 MIDI pitches, 7x7 pitch classes, 567 strings of the "
@@ -1601,15 +2447,31 @@ def run(ctx):
                 "from the object's current fields through an independent table, and against a freshly constructed Interval of "
                 "those fields; likewise 60 histories each of Note (step/alter/octave := ; midi_pitch, alter_sign), Tuplet "
                 "(duration_multiplier), KeySignature (name), Tempo (microseconds_per_quarter).  Each distinct history is one "
-                "non-trivial case.")
+                "non-trivial case.  FUNCTION-HISTORY stream (state carried between calls of the module-level conversions; "
+                "quick 260 array + 120 scalar histories + corpus/C12/fn_histories.json): a pool of numpy arrays (times f8 50% / "
+                "f4 / i8 / i4, ticks i8 / i4 / f8, pitches i8 / i4 / f8 / f4; shapes 0-d 10%, empty 8%, one element 12%, 2-d 8%, "
+                "else 2-5 elements; times 35% exact half ticks of the pair, 20% k+{0,.25,.5,.75} ticks, dyadic, 15% negative) and a "
+                "symbolic-duration dict, with a shadow pool of private copies; 6-12 operations from: seconds->ticks (positional, "
+                "time_in_seconds=, deprecated t=) 40% then edit the argument (45%) or the returned array (30%) in place (element "
+                "write 75%, `*=` 25%) and convert again under the same or the sibling (ppq, mpq) pair (second pair shares ppq or mpq "
+                "with the first in 60%), 40% fed back through ticks->seconds; ticks->seconds likewise 20%; one scalar of every kind "
+                "(Python int/float, numpy int32/int64/float32/float64) under both pairs in both orders 10%; pitch<->frequency under "
+                "two tunings 15%; the duration dict converted, edited (dots/type/tuplet entries set or deleted), converted again + "
+                "to_quarter_tempo of one unit with two dot counts 15%; mpq/ppq as Python or numpy ints (40%).  Scalar histories: "
+                "spelling/name/MIDI/key/mode/clef conversions on a small pool of arguments that collide under every partial key, each "
+                "pair in both orders.  After EVERY operation: result judged from the current argument values by the independent "
+                "oracles; every variable equals its shadow; same call on fresh copies; at the end all calls again in reverse order "
+                "and the constant tables unchanged.  Finally the whole tabulation is repeated in the same process and compared.")
     ctx.trusted = ["Coq 8.16.1 kernel incl. vm_compute", "T2 tabulator harness/props/c12.py (runs the real functions, prints Coq literals)",
                    "Python-side oracle used only to name the failing row", "determinism of the tabulated pure functions",
                    "history stream: the operation runner / field reader of harness/props/c12.py (run_iv_history) and the printing of "
-                   "observed histories as Coq terms"]
+                   "observed histories as Coq terms",
+                   "function-history stream: run_fn_history (pool / shadow pool bookkeeping, numpy's own in-place operations as the edits)"]
     ctx.assumptions = ["floats in tables are converted to the exact rationals they denote",
                        "near-tie tick cases (exact value within 2^-20 of .5 but not on it) are counted and skipped",
                        "float-valued results (tempo, durations, frequencies) are compared with relative tolerance 1e-9; "
                        "microseconds_per_quarter within 1/2 + 1e-6 of the exact value"]
+    tabs0 = tables_snapshot()   # the constant tables before anything of this run has called into the library
     T = gen()
     n_rows = 0
     for k, v in T.items():
@@ -1646,6 +2508,8 @@ def run(ctx):
         run_ticks(ctx)
         run_beyond(ctx)
         run_histories(ctx, with_tr=False, objects=True)
+        run_fn_histories(ctx)
+        run_again(ctx, T, tabs0)
     ctx.extra["exhaustive"] = True
     ctx.extra["exhaustive_note"] = "finite domains named by the property are enumerated completely; the ticks / beyond-domain streams are sampled"
 
@@ -1681,7 +2545,13 @@ def replay(obj):
 def replay_history(r):
     """re-run one stored history on a real object, printing every step: observation, fields, what the current fields define"""
     core.setup_import_path()
-    if r.get("object") == "interval":
+    if r.get("object") == "functions":
+        print("variables:")
+        for n, sp in sorted(r["vars"].items()):
+            print("  %s = %s" % (n, fh_show(fh_build(sp))))
+        fails, trace = run_fn_history(r, verbose=print)
+        print("oracle now says:", [list(f) for f in fails] or "every call returned what its current arguments define; nothing else changed")
+    elif r.get("object") == "interval":
         fails, trace = run_iv_history(r)
         f = tuple(r["init"])
         print("iv = Interval%r" % (f,))
